@@ -10,10 +10,16 @@ streams
   lex   token soups through Lark's lexer vs `lexProfile`                                     (correspondence only)
   pp    arbitrary item lists through `postproc` + `Reconstructor.reconstruct`'s join         (correspondence only)
   bad   malformed sentences: accepted / rejected (`lark.exceptions.LarkError` -> `exc LarkError`)
+  hist  HISTORIES: 2-6 from_text / as_text / tree-edit steps inside ONE impl() call on families of sources that are
+        whitespace variants of each other (between tokens: same tokens; inside literals / at the end of a comment:
+        different tokens), in both orders, repeated sources, object reuse.  The specification is stateless
+        (theorem parse_history_independent): every step must answer as that step's source alone would.
 """
 from __future__ import annotations
 
+import os
 import re
+import signal
 import types
 
 import lark
@@ -45,6 +51,7 @@ STREAMS = {
     "lex": {"relevant": False, "desc": "c2profile_parser.lex(text) vs lexProfile"},
     "pp": {"relevant": False, "desc": "as_text's postproc closure + Reconstructor.reconstruct join vs postproc/joinItems"},
     "bad": {"relevant": False, "desc": "malformed sentences: accept / reject"},
+    "hist": {"relevant": True, "desc": "several from_text/as_text/tree-edit steps in one process; each step vs the stateless model"},
 }
 TRUSTED = [
     "tools/gen/grammar.py (folding of Lark's compiled rules, cross-checked by re-expansion) and tools/harness/c10.py",
@@ -61,7 +68,7 @@ ASSUMPTIONS = [
     "model lexer = longest match over all words; Lark's contextual lexer = first match among the words the LALR state "
     "accepts; generated sources never glue two word-like tokens together, where the two could differ",
 ]
-RULE = ("every form of the generated table in a minimal context, every block empty/with variant/repeated, all forms of a "
+RULE = ("histories of whitespace-variant sources (stream hist) + every form of the generated table in a minimal context, every block empty/with variant/repeated, all forms of a "
         "rule in one block in random order, ordered pairs of forms, seeded random profiles with nasty literals and "
         "whitespace/comments; distinct = hash of input line; non-trivial = accepted sentence with at least one statement "
         "(rt), printable tree (tree), lexable text (lex), non-empty output (pp), rejected input (bad)")
@@ -390,11 +397,96 @@ def gen(tier, rng, shard, nshards):
         items = [rng.choice(PP_ITEMS) for _ in range(n)]
         yield "pp", "pp " + " ".join(hx(i) for i in items) if items else "pp"
 
+    # ---- histories
+    for _ in range((5600 if thorough else 360) // nshards):
+        yield "hist", "hist " + " ".join(gen_history(rng))
+
     # ---- malformed stream
     for _ in range((8000 if thorough else 700) // nshards):
         g = SGen(rng, nasty=0.2, star_max=2)
         toks = g.cover(rng.choice([f for f in TAB.forms if f.id not in UNLEXABLE]), depth=rng.choice([0, 1, 2]))
         yield "bad", "bad " + hx(malform(rng, toks))
+
+
+LIT_WS = [" ", "  ", "\t", "\n", " \n", "\r\n", "   ", "\t ", "\f", " \t"]
+
+
+def gen_history(rng):
+    """steps of one history (see module doc): `p:x<src>` from_text, `a` as_text again, `d:<k>` delete a child,
+    `t:x<src>` replace the tree of the same object"""
+    g = SGen(rng, nasty=rng.choice([0.0, 0.2]), star_max=2)
+    lexable = [f for f in TAB.forms if f.id not in UNLEXABLE]
+
+    def sentence():
+        if rng.random() < 0.5:
+            return g.cover(rng.choice(lexable), depth=rng.choice([0, 1]))
+        return g.nt(TAB.start, rng.choice([0, 1]))
+
+    def toplevel():
+        return g.nt(TAB.start, 1) or g.cover(rng.choice(FORMS_OF[TAB.forms[1].origin]), 0)
+
+    kind = rng.choice(["between", "literal", "literal", "comment", "comment", "repeat", "mutate", "mixed"])
+    toks = sentence()
+    srcs = []
+    if kind == "between":
+        srcs = [render(rng, toks, tight=rng.choice([0.0, 0.5]), messy=rng.random() < 0.8) for _ in range(rng.randint(2, 4))]
+    elif kind in ("literal", "mixed"):
+        idx = [i for i, (k, _) in enumerate(toks) if k == "STRING"]
+        if not idx:
+            toks = toks + g.form(TAB.forms[1], 0)
+            idx = [i for i, (k, _) in enumerate(toks) if k == "STRING"]
+        i = rng.choice(idx)
+        left, right = rng.choice(["/a", "", "x y", "#", "q;"]), rng.choice(["b", "", "{", "z z"])
+        variants = rng.sample(LIT_WS, rng.randint(2, 3))
+        same_layout = rng.random() < 0.6
+        seed = rng.getrandbits(32)
+        for wsv in variants:
+            tv = list(toks)
+            tv[i] = ("STRING", '"' + left + wsv + right + '"')
+            import random as _r
+            rr = _r.Random(seed) if same_layout else rng
+            srcs.append(render(rr, tv, tight=0.0, messy=not same_layout or rng.random() < 0.3))
+        if rng.random() < 0.6:
+            srcs.append(srcs[0])  # first variant again: both orders within one history
+        if kind == "mixed":
+            srcs.insert(rng.randrange(len(srcs) + 1), render(rng, sentence()))
+    elif kind == "comment":
+        a, b = toplevel(), toplevel()
+        sa, sb = render(rng, a, messy=False), render(rng, b, messy=False)
+        c = rng.choice(["# c", "#", "# set x \"y\";", "#c #d", '# "'])
+        cand = [sa + " " + c + "\n" + sb, sa + " " + c + " " + sb, sa + "\n" + c + "\n\n" + sb, sa + " " + c + "\t" + sb,
+                sa + " " + c + "\r\n" + sb]
+        if rng.random() < 0.3 and a and a[-1][1] == "}":
+            # comment inside a block: the one-line variant swallows the closing brace (rejected by the parser)
+            inner = render(rng, a[:-1], messy=False)
+            cand += [inner + " " + c + "\n}", inner + " " + c + " }"]
+        srcs = rng.sample(cand, rng.randint(2, 3))
+        if rng.random() < 0.6:
+            srcs.append(srcs[0])
+    elif kind == "repeat":
+        s0 = render(rng, toks)
+        srcs = [s0] * rng.randint(2, 3)
+    if kind == "mutate":
+        steps = ["p:" + hx(render(rng, toks))]
+        for _ in range(rng.randint(2, 5)):
+            r = rng.random()
+            if r < 0.35:
+                steps.append("a")
+            elif r < 0.7:
+                steps.append(f"d:{rng.randrange(6)}")
+            elif r < 0.9:
+                steps.append("t:" + hx(render(rng, sentence())))
+            else:
+                steps.append("p:" + hx(render(rng, sentence())))
+        if rng.random() < 0.2:
+            steps.insert(0, rng.choice(["a", "d:0", "t:" + hx('set sleeptime "1";')]))
+        return steps
+    steps = []
+    for src in srcs[:5]:
+        steps.append("p:" + hx(src))
+        if rng.random() < 0.2:
+            steps.append(rng.choice(["a", "a", f"d:{rng.randrange(4)}"]))
+    return steps
 
 
 def _wrap_nt(rng, n, body):
@@ -614,6 +706,110 @@ def _run_rt(src: str):
             f"relex={C.tf(relex)} reparse={C.tf(reparse)}"), "text " + hx(text)
 
 
+def _hist_answer(prof, src_toks) -> str:
+    tree = prof.tree
+    try:
+        text, items = as_text_with_items(prof)
+    except (lark.exceptions.LarkError, AssertionError, StopIteration, KeyError):
+        return f"ok tree {' '.join(enc_tree(tree))} print none"
+    printed = [str(i) for i in items]
+    flag = "-" if src_toks is None else C.tf(src_toks == printed)
+    try:
+        relex = [v for _, v in lark_tokens(text)] == printed
+    except lark.exceptions.LarkError:
+        relex = False
+    try:
+        reparse = C2Profile.from_text(text).tree == tree
+    except lark.exceptions.LarkError:
+        reparse = False
+    return (f"ok yield={flag} tree {' '.join(enc_tree(tree))} print {enc_items(items)} "
+            f"relex={C.tf(relex)} reparse={C.tf(reparse)}")
+
+
+def impl_hist(words) -> str:
+    cur = None
+    out = []
+    for w in words:
+        src_toks = None
+        try:
+            if w.startswith("p:"):
+                src = unhx(w[2:])
+                cur_new = C2Profile.from_text(src)
+                cur = cur_new
+                try:
+                    src_toks = [v for _, v in lark_tokens(src)]
+                except lark.exceptions.LarkError:
+                    src_toks = ["<source does not lex/parse>"]
+            elif cur is None:
+                out.append("nop")
+                continue
+            elif w == "a":
+                pass
+            elif w.startswith("d:"):
+                ch = cur.tree.children
+                if ch:
+                    del ch[int(w[2:]) % len(ch)]
+            elif w.startswith("t:"):
+                src = unhx(w[2:])
+                cur.tree = C2Profile.from_text(src).tree
+                try:
+                    src_toks = [v for _, v in lark_tokens(src)]
+                except lark.exceptions.LarkError:
+                    src_toks = ["<source does not lex/parse>"]
+            else:
+                raise RuntimeError("bad history step " + w)
+        except lark.exceptions.LarkError:
+            out.append("exc LarkError")
+            continue
+        out.append(_hist_answer(cur, src_toks))
+    return " | ".join(out)
+
+
+def impl_hist_isolated(words) -> str:
+    """Run one history in a forked child: whatever process-level state the code under test keeps (caches, ...),
+    the answer depends on THIS history only, so a shrunk history replays identically in a fresh process."""
+    r, w = os.pipe()
+    pid = os.fork()
+    if pid == 0:
+        try:
+            os.close(r)
+            signal.alarm(0)
+            try:
+                out = impl_hist(words)
+            except BaseException as e:  # noqa: BLE001
+                out = "exc " + type(e).__name__
+            data = out.encode("utf-8")
+            while data:
+                n = os.write(w, data)
+                data = data[n:]
+        finally:
+            os._exit(0)
+    os.close(w)
+    chunks = []
+    try:
+        while True:
+            b = os.read(r, 1 << 16)
+            if not b:
+                break
+            chunks.append(b)
+    except BaseException:
+        try:
+            os.kill(pid, signal.SIGKILL)
+        except OSError:
+            pass
+        raise
+    finally:
+        os.close(r)
+        try:
+            os.waitpid(pid, 0)
+        except OSError:
+            pass
+    out = b"".join(chunks).decode("utf-8")
+    if not out:
+        raise RuntimeError("history child died without an answer")
+    return out
+
+
 def _postproc_fn():
     """the `postproc` closure of C2Profile.as_text (it has no free variables)"""
     for c in C2Profile.as_text.__code__.co_consts:
@@ -632,6 +828,8 @@ def impl(stream, line):
         return run_rt(unhx(w[1]))[0]
     if stream == "txt":
         return run_rt(unhx(w[1]))[1]
+    if stream == "hist":
+        return impl_hist_isolated(w[1:])
     if stream == "bad":
         try:
             C2Profile.from_text(unhx(w[1]))
@@ -674,12 +872,24 @@ def nontrivial(stream, line, out):
         return out != "x"
     if stream == "bad":
         return out.startswith("exc ")
+    if stream == "hist":
+        return out.count("ok yield=") >= 2
     return True
 
 
 def oracle(stream, line, out):
     """The property on the implementation's own outputs: a generated sentence is accepted, the regenerated text has
     the same tokens, and re-parses to the same tree (all three flags are computed from Lark alone in impl_rt)."""
+    if stream == "hist":
+        # every step that produced a profile: its regenerated text re-lexes to the tokens of THAT step's source
+        # (yield), to the printed items (relex) and re-parses to the tree the object holds (reparse)
+        if out.startswith("exc "):
+            return None
+        for a in out.split(" | "):
+            if a.startswith("ok ") and " print none" not in a:
+                if " yield=F " in a or " relex=T " not in a or not a.endswith(" reparse=T"):
+                    return False
+        return True
     if stream != "rt":
         return None
     if out.startswith("exc Timeout"):
@@ -724,6 +934,14 @@ def shrink(stream, line):
         for i, t in enumerate(toks):
             if t.startswith('"') and len(t) > 2:
                 yield w[0] + " " + hx(" ".join(toks[:i] + ['"a"'] + toks[i + 1:]))
+    elif stream == "hist":
+        for i in range(1, len(w)):
+            yield " ".join(w[:i] + w[i + 1:])
+        for i in range(1, len(w)):
+            if w[i][:2] in ("p:", "t:"):
+                src = unhx(w[i][2:])
+                for cand in shrink("rt", "rt " + hx(src)):
+                    yield " ".join(w[:i] + [w[i][:2] + cand.split(" ")[1]] + w[i + 1:])
     elif stream in ("tree", "pp", "lex"):
         if stream == "pp":
             for i in range(1, len(w)):
